@@ -28,6 +28,7 @@ type Options struct {
 	SolverPath string
 	Verbose    bool
 	KnownKeys  map[string]bool
+	NoMerge    bool
 }
 
 type Witness struct {
@@ -57,6 +58,8 @@ type Report struct {
 	FloatErrVars int
 	EndReasons   map[string]int
 	StubsUsed    map[string]bool
+	Merges       int
+	MergeFail    map[string]int
 }
 
 func (p *Program) newInterp(x *exec) *interpreter {
@@ -114,6 +117,8 @@ type runResult struct {
 	assumes  []string
 	floatErr int
 	stubs    map[string]bool
+	merges   int
+	mfail    map[string]int
 }
 
 // runOne executes the harness once under the decision prefix.
@@ -123,6 +128,8 @@ func (p *Program) runOne(h *ssa.Function, prefix []Decision, solver *smt.Solver,
 		floatMag: 22, maxSteps: opt.MaxSteps, maxDepth: opt.MaxDepth,
 		bounds: map[string]int64{}, calls: map[string]bool{}, tier: opt.Tier, needWit: needWit,
 		knownKeys: opt.KnownKeys, stubs: map[string]bool{},
+		freshCells: map[*value]bool{}, freshMaps: map[*omap]bool{}, noMergeAt: map[*ssa.If]bool{}, mergeFail: map[string]int{},
+		noMerge: opt.NoMerge,
 	}
 	i := p.newInterp(x)
 	x.curPos = func() string { return i.position() }
@@ -176,7 +183,7 @@ func (p *Program) runOne(h *ssa.Function, prefix []Decision, solver *smt.Solver,
 			st.AbandonReasons[x.ended+"\n"+string(debug.Stack())]++
 		}
 		res = runResult{siblings: x.siblings, failures: x.failures, reached: x.reached, wits: x.wits, ended: x.ended,
-			notes: x.notes, calls: x.calls, bounds: x.bounds, assumes: x.assumeNotes, floatErr: x.floatErrVars, stubs: x.stubs}
+			notes: x.notes, calls: x.calls, bounds: x.bounds, assumes: x.assumeNotes, floatErr: x.floatErrVars, stubs: x.stubs, merges: x.merges, mfail: x.mergeFail}
 	}()
 	p.runInit(i)
 	x.inHarness = true
@@ -207,7 +214,7 @@ func (p *Program) Explore(h *ssa.Function, opt Options) *Report {
 		opt.Workers = 4
 	}
 	rep := &Report{Harness: h.Name(), FailCount: map[string]int{}, Reached: map[string]int{}, Bounds: map[string]int64{},
-		EndReasons: map[string]int{}, StubsUsed: map[string]bool{}}
+		EndReasons: map[string]int{}, StubsUsed: map[string]bool{}, MergeFail: map[string]int{}}
 	rep.Stats.AbandonReasons = map[string]int{}
 	rep.Stats.InconclusiveClauses = map[string]int{}
 	var mu sync.Mutex
@@ -282,6 +289,10 @@ func (p *Program) Explore(h *ssa.Function, opt Options) *Report {
 					rep.StubsUsed[s] = true
 				}
 				rep.FloatErrVars += r.floatErr
+				rep.Merges += r.merges
+				for k, v := range r.mfail {
+					rep.MergeFail[k] += v
+				}
 				if r.ended != "" {
 					e := r.ended
 					if len(e) > 120 {
